@@ -76,3 +76,15 @@ pub fn reply_obs(r: &Result<QueryReply, QueryError>) -> Value {
             "left": parts_json(&c.left), "right": parts_json(&c.right), "suggestions": c.suggestions}),
     }
 }
+
+/// A date *value* (C14): seconds since the Unix epoch (as a signed limb integer), nanoseconds of the second
+/// (chrono reports a leap second as >= 10^9), the exact UTC offset in seconds, and the variant.
+pub fn datetime_json(d: &rink_core::types::GenericDateTime) -> Value {
+    use chrono::Offset;
+    use rink_core::types::GenericDateTime;
+    let (variant, secs, nanos, off) = match d {
+        GenericDateTime::Fixed(d) => ("fixed", d.timestamp(), d.timestamp_subsec_nanos(), d.offset().fix().local_minus_utc()),
+        GenericDateTime::Timezone(d) => ("tz", d.timestamp(), d.timestamp_subsec_nanos(), d.offset().fix().local_minus_utc()),
+    };
+    json!({"variant": variant, "secs": crate::conv::int_json(&num_bigint::BigInt::from(secs)), "ns": nanos, "off": off})
+}
